@@ -113,6 +113,11 @@ theorem chain_shape {max : Nat} (hmax : 1 ≤ max) (n : Nat) (rs : List Rec) (hr
     rw [pageOf_len]
     exact NF_dropLast_full _ hnf c hc
 
+/-- The chain of `k ≥ 1` pending records has `⌈k / max⌉` pages. -/
+theorem chain_page_count {max : Nat} (hmax : 1 ≤ max) (n : Nat) (rs : List Rec) (hrs : rs ≠ []) :
+    (rs.foldl (addToChain max n) [emptyPage n]).length = (rs.length + max - 1) / max := by
+  rw [chain_is_chunks hmax n rs hrs, List.length_map, chunksOf_length hmax]
+
 /-- Column contents: for well-formed records (one entry list per column) the pages of column `i`,
 concatenated along the chain, are the records' entries for column `i`, in order. -/
 theorem chain_columns {max : Nat} (hmax : 1 ≤ max) (n i : Nat) (hi : i < n) (rs : List Rec)
@@ -207,5 +212,280 @@ theorem rowgroups_refine_batches {max : Nat} (hmax : 1 ≤ max) (cols : List Col
   · rw [footerT_eq, hfil, List.map_map]
     rw [hs]
     rfl
+
+/-! ## 6. The shape of the sink calls -/
+
+/-- Per call, for ANY state: `Add` writes nothing; `Write()` with `k` pages in the chain and `n`
+columns performs exactly `2 * k * n` sink writes (none when nothing is pending); `Close` performs
+exactly three — the footer, `le32` of its length, the magic — or panics (`none`) exactly where
+`schema()` does; the constructor writes the magic. -/
+theorem sink_calls_shape (s : WState) :
+    (∀ r, s.step (.add r) = some (s.add r, [])) ∧
+    (s.step .write = some s.write) ∧
+    s.write.2.length = (if (s.pages.head?.map (·.len)).getD 0 = 0 then 0 else 2 * s.pages.length * s.cols.length) ∧
+    s.close = (footerT s).map (fun t => [t.enc, le32 t.enc.length, par1]) ∧
+    (∀ ws, s.step .close = some (s, ws) → ws.length = 3) ∧
+    (∀ cols max codec ops, ∃ rest, runWriter cols max codec ops = some [par1] :: rest) := by
+  refine ⟨fun _ => rfl, rfl, ?_, ?_, ?_, fun _ _ _ _ => ⟨_, rfl⟩⟩
+  · by_cases h : (s.pages.head?.map (·.len)).getD 0 = 0
+    · rw [if_pos h, write_empty s h]; rfl
+    · rw [if_neg h, write_nonempty s h]; exact writeOut_length s
+  · unfold WState.close
+    cases footerT s <;> rfl
+  · intro ws h
+    unfold WState.step WState.close at h
+    cases hf : footerT s with
+    | none => simp [hf] at h
+    | some t =>
+      simp only [hf, Option.some.injEq, Prod.mk.injEq, true_and] at h
+      rw [← h]; rfl
+
+/-- History form: for a `Close`-free `body`, the calls of `body ++ [close]` are: the constructor's
+magic, then per call `0` writes for an `Add` and `2 * (number of pages) * (number of columns)` for a
+`Write` (`countsAux`; pages = `chunksOf max pending`, `0` when nothing is pending), then `Close`'s
+three writes (`none` if `schema()` panics). -/
+theorem sink_calls_history {max : Nat} (hmax : 1 ≤ max) (cols : List Col) (hcols : cols ≠ [])
+    (codec : Codec) (body : List Op) (hbody : ∀ op ∈ body, op.isClose = false) :
+    ∃ outs : List (List Bytes),
+      outs.map List.length = countsAux max cols.length [] body ∧
+      outs.length = body.length ∧
+      runWriter cols max codec (body ++ [.close]) =
+        some [par1] :: outs.map some ++
+          [(footerT ((WState.init cols max codec).exec body)).map fun t => [t.enc, le32 t.enc.length, par1]] := by
+  refine ⟨outsAux cols max codec [] body, outsAux_lengths cols max codec body [], ?_, ?_⟩
+  · have := congrArg List.length (outsAux_lengths cols max codec body [])
+    rw [List.length_map] at this
+    rw [this]
+    have hc : ∀ (ops : List Op) (pend : List Rec), (countsAux max cols.length pend ops).length = ops.length := by
+      intro ops
+      induction ops with
+      | nil => intro _; rfl
+      | cons op ops ih => intro pend; cases op <;> simp [countsAux, ih]
+    exact hc body []
+  · unfold runWriter
+    rw [runOps_append _ body _ hbody, init_eq_stateOf, outs_stateOf hmax cols hcols]
+    congr 2
+    simp only [runOps, WState.step, WState.close]
+    cases footerT _ <;> rfl
+
+/-! ## 4. Records pending at `Close` are dropped -/
+
+/-- The footer depends only on the columns, the codec id and the row groups; `Add`s change none of
+them and write nothing.  Hence `Close` after any number of trailing `Add`s writes exactly what it
+would have written without them, and the file is byte-identical. -/
+theorem pending_at_close_dropped (s : WState) (adds : List Op) (hadds : ∀ op ∈ adds, op.isAdd = true) :
+    (∀ s' : WState, s.cols = s'.cols → s.codec.id = s'.codec.id → s.rgs = s'.rgs → footerT s = footerT s') ∧
+    (s.exec adds).rgs = s.rgs ∧
+    footerT (s.exec adds) = footerT s ∧
+    (s.exec adds).close = s.close ∧
+    runOps s (adds ++ [.close]) = List.replicate adds.length (some []) ++ runOps s [.close] ∧
+    fileBytes (runOps s (adds ++ [.close])) = fileBytes (runOps s [.close]) := by
+  have ha := exec_adds s adds hadds
+  have hk : (s.exec adds).codec.id = s.codec.id := by rw [ha.2.1]
+  have hclose : (s.exec adds).close = s.close := close_congr _ _ ha.1 hk ha.2.2.1
+  have hrun : runOps s (adds ++ [.close]) = List.replicate adds.length (some []) ++ runOps s [.close] := by
+    rw [runOps_append s adds _ (isAdd_not_isClose adds hadds), ha.2.2.2.2]
+    simp only [List.map_replicate, runOps, WState.step, hclose]
+    cases s.close <;> rfl
+  refine ⟨footerT_congr s, ha.2.2.1, footerT_congr _ _ ha.1 hk ha.2.2.1, hclose, hrun, ?_⟩
+  rw [hrun, fileBytes_append, fileBytes_replicate_nil]
+  rfl
+
+/-- Whole-history form: trailing `Add`s before `Close` do not change the file. -/
+theorem pending_at_close_dropped_file (cols : List Col) (max : Nat) (codec : Codec)
+    (body adds : List Op) (hbody : ∀ op ∈ body, op.isClose = false) (hadds : ∀ op ∈ adds, op.isAdd = true) :
+    fileBytes (runWriter cols max codec (body ++ adds ++ [.close])) =
+      fileBytes (runWriter cols max codec (body ++ [.close])) ∧
+    batches (body ++ adds ++ [.close]) = batches (body ++ [.close]) := by
+  constructor
+  · unfold runWriter
+    rw [List.append_assoc, runOps_append _ body _ hbody, runOps_append _ body _ hbody]
+    rw [fileBytes_cons, fileBytes_cons, fileBytes_append, fileBytes_append,
+      (pending_at_close_dropped _ adds hadds).2.2.2.2.2]
+  · have key : ∀ (body : List Op) (pend : List Rec),
+        batchesAux pend (body ++ adds ++ [.close]) = batchesAux pend (body ++ [.close]) := by
+      intro body
+      induction body with
+      | nil =>
+        intro pend
+        simp only [List.nil_append]
+        have : ∀ (adds : List Op), (∀ op ∈ adds, op.isAdd = true) → ∀ pend,
+            batchesAux pend (adds ++ [.close]) = [] := by
+          intro adds
+          induction adds with
+          | nil => intro _ pend; rfl
+          | cons op adds ih =>
+            intro h pend
+            cases op with
+            | add r => exact ih (fun o ho => h o (List.mem_cons_of_mem _ ho)) _
+            | write => exact absurd (h .write List.mem_cons_self) (by simp [Op.isAdd])
+            | close => exact absurd (h .close List.mem_cons_self) (by simp [Op.isAdd])
+        rw [this adds hadds]; rfl
+      | cons op body ih =>
+        intro pend
+        cases op with
+        | add r => exact ih _
+        | close => exact ih _
+        | write => simp only [List.cons_append, batchesAux]; rw [ih []]
+    exact key body []
+
+/-! ## 5. The offsets in the footer are truthful -/
+
+/-- The whole file as a function of `batches body`.  With
+`items j = batchItems cols max codec (batch j)` = per column `(column, chunk totals, chunk bytes)`,
+where the chunk bytes are header ‖ payload of every page of that column along the chain
+(`chunkBytes`), and `fileLocs items 4` = these chunks laid out back to back from offset 4 in
+(row group, column) order:
+
+* the file is `PAR1 ‖ all chunk bytes in that order ‖ footer ‖ le32 |footer| ‖ PAR1`;
+* the footer's row-group list is `rgTs`, i.e. chunk `(j, i)` is recorded by `chunkT` with
+  `file_offset = data_page_offset =` its `fileLocs` offset
+  `= 4 + (bytes of all chunks before it)`, `total_byte_size` = the row group's bytes, `num_rows` =
+  the batch length;
+* for every located chunk `x`: `total_compressed_size = |x.bytes|` and the file really holds
+  `x.bytes` at `x.offset`;
+* the located chunks tile the data region, so the footer starts exactly where the last chunk ends:
+  at `4 + Σ chunk sizes`. -/
+theorem offsets_truthful {max : Nat} (hmax : 1 ≤ max) (cols : List Col) (hcols : cols ≠ [])
+    (codec : Codec) (body : List Op) (hbody : ∀ op ∈ body, op.isClose = false)
+    (se : List SElem) (hse : schemaElems cols = some se) :
+    let bs := batches body
+    let items := bs.map (batchItems cols max codec)
+    let locs := fileLocs items 4
+    let data := items.flatMap itemsBytes
+    let rgs := rgTs codec.id (bs.map fun b => (b.length, batchItems cols max codec b)) 4
+    let footer := TVal.struct [(1, .int 5 1), (2, .list 12 (se.map SElem.toT)),
+                               (3, .int 6 ((bs.map List.length).sum : Nat)), (4, .list 12 rgs)]
+    let file := fileBytes (runWriter cols max codec (body ++ [.close]))
+    rowGroupsT cols codec.id ((WState.init cols max codec).exec body).rgs 4 = rgs ∧
+    footerT ((WState.init cols max codec).exec body) = some footer ∧
+    file = par1 ++ data ++ (footer.enc ++ le32 footer.enc.length ++ par1) ∧
+    (∀ L ∈ locs, ∀ x ∈ L,
+        x.chunk.totalCompressed = x.bytes.length ∧
+        (file.drop x.offset).take x.bytes.length = x.bytes) ∧
+    locs.flatten.flatMap (·.bytes) = data ∧
+    (par1 ++ data).length = 4 + (locs.flatten.map (·.chunk.totalCompressed)).sum := by
+  intro bs items locs data rgs footer file
+  have hne : ∀ b ∈ bs, b ≠ [] := batchesAux_ne_nil body []
+  have hst := state_is_stateOf hmax cols hcols codec body
+  have hrg : rowGroupsT cols codec.id ((WState.init cols max codec).exec body).rgs 4 = rgs := by
+    rw [hst]
+    exact rowGroupsT_done cols max codec bs 4 hne
+  have hfoot : footerT ((WState.init cols max codec).exec body) = some footer := by
+    have := (rowgroups_refine_batches hmax cols hcols codec body).2.2.2.2.2.2.2.2.2.2
+    rw [this, hse, Option.map_some, hrg]
+  have hfile : file = par1 ++ data ++ (footer.enc ++ le32 footer.enc.length ++ par1) := by
+    show fileBytes (runWriter cols max codec (body ++ [.close])) = _
+    unfold runWriter
+    rw [runOps_append _ body _ hbody, fileBytes_cons, fileBytes_append]
+    have h1 : fileBytes (((WState.init cols max codec).outs body).map some) = data := by
+      rw [init_eq_stateOf, outs_stateOf hmax cols hcols, fileBytes_outsAux]
+      show (batches body).flatMap _ = ((batches body).map _).flatMap _
+      rw [List.flatMap_map]
+    have h2 : fileBytes (runOps ((WState.init cols max codec).exec body) [.close]) =
+        footer.enc ++ le32 footer.enc.length ++ par1 := by
+      simp [runOps, WState.step, WState.close, hfoot, fileBytes]
+    rw [h1, h2]
+    simp [par1]
+  have hsz : ∀ its ∈ items, ∀ it ∈ its, it.2.1.totalCompressed = it.2.2.length := by
+    intro its hits
+    obtain ⟨b, _, rfl⟩ := List.mem_map.mp hits
+    exact batchItems_sizes cols max codec b
+  have hbytes : locs.flatten.flatMap (·.bytes) = data := fileLocs_bytes items 4
+  refine ⟨hrg, hfoot, hfile, ?_, hbytes, ?_⟩
+  · intro L hL x hx
+    refine ⟨fileLocs_sizes items 4 hsz L hL x hx, ?_⟩
+    rw [hfile]
+    exact fileLocs_slice items par1 _ L x hL hx
+  · rw [List.length_append, ← hbytes]
+    have : ∀ xs : List ChunkLoc, (∀ x ∈ xs, x.chunk.totalCompressed = x.bytes.length) →
+        (xs.flatMap (·.bytes)).length = (xs.map (·.chunk.totalCompressed)).sum := by
+      intro xs
+      induction xs with
+      | nil => intro _; rfl
+      | cons x xs ih =>
+        intro h
+        rw [List.flatMap_cons, List.length_append, List.map_cons, List.sum_cons, h x List.mem_cons_self,
+          ih (fun y hy => h y (List.mem_cons_of_mem _ hy))]
+    rw [this]
+    · rfl
+    · intro x hx
+      obtain ⟨L, hL, hxL⟩ := List.mem_flatten.mp hx
+      exact fileLocs_sizes items 4 hsz L hL x hxL
+
+/-- Contiguity made explicit: listing the chunks in (row group, column) order, the `k`-th chunk's
+recorded offset is `4 +` the total size of the chunks before it. -/
+theorem offsets_contiguous (cols : List Col) (max : Nat) (codec : Codec) (body : List Op) :
+    let xs := (fileLocs ((batches body).map (batchItems cols max codec)) 4).flatten
+    ∀ (k : Nat) (h : k < xs.length), xs[k].offset = 4 + ((xs.take k).map (·.bytes.length)).sum := by
+  intro xs k h
+  exact Contig_offset xs 4 (fileLocs_Contig _ 4) k h
+
+/-! ## Non-vacuity: two columns, `max = 2`, history add, add, add, write, write, add, close -/
+
+section examples
+
+private def exCols : List Col :=
+  [{ path := ["a"], reps := [.req], ty := .i32 }, { path := ["b"], reps := [.opt], ty := .i32 }]
+private def exCodec : Codec := { id := 0, compress := id }
+private def exRec (k : Nat) : Rec :=
+  [[{ rep := 0, dl := 0, val := some [k, 0, 0, 0] }], [{ rep := 0, dl := 0, val := none }]]
+private def exOps : List Op :=
+  [.add (exRec 1), .add (exRec 2), .add (exRec 3), .write, .write, .add (exRec 4), .close]
+private def exBody : List Op := exOps.dropLast
+
+example : exCols ≠ [] := by decide
+example : ∀ op ∈ exBody, op.isClose = false := by decide
+example : ∀ r ∈ [exRec 1, exRec 2, exRec 3], r.length = exCols.length := by decide
+/-- one batch of three records; the fourth record is pending at `Close` -/
+example : batches exOps = [[exRec 1, exRec 2, exRec 3]] := by decide
+example : pendingOf exOps = [exRec 4] := by decide
+example : pendingOf (exOps.take 4) = [] := by decide   -- the second `Write` finds nothing pending
+/-- three records with `max = 2` make a chain of two pages, `[2, 1]` -/
+example : chunksOf 2 [exRec 1, exRec 2, exRec 3] = [[exRec 1, exRec 2], [exRec 3]] := by decide
+example : ([exRec 1, exRec 2, exRec 3].foldl (addToChain 2 2) [emptyPage 2]).map (·.len) = [2, 1] := by decide
+example : ([exRec 1, exRec 2, exRec 3].foldl (addToChain 2 2) [emptyPage 2]).flatMap (·.cols.getD 0 []) =
+    [⟨0, 0, some [1, 0, 0, 0]⟩, ⟨0, 0, some [2, 0, 0, 0]⟩, ⟨0, 0, some [3, 0, 0, 0]⟩] := by decide
+/-- the model's state: one closed row group with 3 rows, the open one with 0, one record pending -/
+example : (((WState.init exCols 2 exCodec).exec exOps).rgs.map (·.numRows),
+           ((WState.init exCols 2 exCodec).exec exOps).rowGroupDocs,
+           ((WState.init exCols 2 exCodec).exec exOps).pages.map (·.len),
+           ((WState.init exCols 2 exCodec).exec exOps).docs) = ([3, 0], 1, [1], 4) := by decide
+/-- sink writes per call: constructor 1, adds 0, first `Write` 2·2·2 = 8, empty `Write` 0, `Close` 3 -/
+example : countsAux 2 exCols.length [] exBody = [0, 0, 0, 8, 0, 0] := by decide
+example : (runWriter exCols 2 exCodec exOps).map (Option.map List.length) =
+    [some 1, some 0, some 0, some 0, some 8, some 0, some 0, some 3] := by decide
+/-- the layout has one row group with two chunks, the first at offset 4 -/
+example : ((fileLocs ((batches exBody).map (batchItems exCols 2 exCodec)) 4).map
+    (·.map (·.col.path))) = [[["a"], ["b"]]] := by decide
+example : ((fileLocs ((batches exBody).map (batchItems exCols 2 exCodec)) 4).flatten.head?.map (·.offset)) = some 4 := by
+  decide
+example : (schemaElems exCols).isSome = true := by decide
+/-- the layout: chunk `a` at offset 4, chunk `b` right after it (evaluated by the driver: 74 and 54
+bytes, footer of 94 bytes at 132, file of 234 bytes; `uleb` is by well-founded recursion, so the
+byte counts themselves are not `decide`-able) -/
+example : ((fileLocs ((batches exBody).map (batchItems exCols 2 exCodec)) 4).flatten.map (·.offset)) =
+    [4, 4 + (chunkBytes exCodec ⟨["a"], [.req], .i32⟩
+              (colEntries (chainOf 2 2 [exRec 1, exRec 2, exRec 3]) 0)).length] := rfl
+/-- the two inertness theorems applied: the empty `Write` and the pending `Add` can be dropped -/
+example : fileBytes (runWriter exCols 2 exCodec exOps) =
+    fileBytes (runWriter exCols 2 exCodec [.add (exRec 1), .add (exRec 2), .add (exRec 3), .write, .close]) := by
+  have h1 := empty_write_inert_file (max := 2) (by decide) exCols (by decide) exCodec
+    [.add (exRec 1), .add (exRec 2), .add (exRec 3), .write] [.add (exRec 4), .close] (by decide) (by decide)
+  have h2 := (pending_at_close_dropped_file exCols 2 exCodec
+    [.add (exRec 1), .add (exRec 2), .add (exRec 3), .write] [.add (exRec 4)] (by decide) (by decide)).1
+  exact h1.trans h2
+/-- `offsets_truthful` applied: the bytes of chunk `b` sit in the file at the recorded offset -/
+example (se : List SElem) (hse : schemaElems exCols = some se) :
+    let file := fileBytes (runWriter exCols 2 exCodec exOps)
+    let a := chunkBytes exCodec ⟨["a"], [.req], .i32⟩ (colEntries (chainOf 2 2 [exRec 1, exRec 2, exRec 3]) 0)
+    let b := chunkBytes exCodec ⟨["b"], [.opt], .i32⟩ (colEntries (chainOf 2 2 [exRec 1, exRec 2, exRec 3]) 1)
+    (file.drop (4 + a.length)).take b.length = b := by
+  intro file a b
+  have h := (offsets_truthful (max := 2) (by decide) exCols (by decide) exCodec exBody (by decide) se hse).2.2.2.1
+  exact (h _ List.mem_cons_self ⟨⟨["b"], [.opt], .i32⟩, _, 4 + a.length, b⟩
+    (List.mem_cons_of_mem _ List.mem_cons_self)).2
+
+end examples
 
 end PQ.C06
